@@ -111,6 +111,12 @@ def main(argv=None):
         traceback.print_exc()
         print("HARNESS-FAULT: cannot import check %s: %s" % (pid, e), file=sys.stderr)
         return 2
+    cul = os.environ.get("VERIF_AMBIENT_CULTURE")
+    if cul:
+        # the process's current culture (what str()/format() without an explicit culture use); set after the check module is
+        # imported because the schedule-exploring checks must replace threading.Lock before pyoda_time is imported
+        from pyoda_time._compatibility._culture_info import CultureInfo
+        CultureInfo.current_culture = CultureInfo(cul)
     if a.replay:
         with open(a.replay) as f:
             rec = json.load(f)
